@@ -372,14 +372,20 @@ class Definition(Item):
                 raise ItemException("Definition %s: wrong head of lhs" % self.name)
             if not all(v.is_var() for v in args):
                 raise ItemException("Definition %s: arguments on lhs must be variables" % self.name)
-            lhs_vars = set(v.name for v in args)
-            rhs_vars = set(v.name for v in self.prop.rhs.get_vars())
-            if len(lhs_vars) != len(args):
+            if len(set(v.name for v in args)) != len(args):
                 raise ItemException("Definition %s: variables on lhs must be distinct" % self.name)
+            # A variable is a name together with a type: x::bool on the rhs is
+            # not the argument x::nat of the lhs.
+            lhs_vars = set(args)
+            rhs_vars = set(self.prop.rhs.get_vars())
             if not rhs_vars.issubset(lhs_vars):
                 raise ItemException(
                     "Definition %s: extra variables in rhs: %s" % (
-                        self.name, ", ".join(v for v in rhs_vars - lhs_vars)))
+                        self.name, ", ".join(v.name for v in rhs_vars - lhs_vars)))
+            # Schematic variables and schematic type variables could be
+            # instantiated at will in the defining theorem.
+            if self.prop.get_svars() or self.prop.get_stvars():
+                raise ItemException("Definition %s: schematic variables in the defining equation" % self.name)
 
             # Type variables on the rhs must appear in the type of the constant
             extra_tvars = set(get_term_tvars(self.prop.rhs)) - set(self.type.get_tvars())
